@@ -1,10 +1,15 @@
 #!/usr/bin/env python3
-"""tools/store_sb.py <prop>... — store the confirmed second-round seeded changes of /tmp/sb/<prop>/_out as
-/verif/seeded/<prop>_c and <prop>_d (patch.diff, demo.rs, notes.md, meta.json)."""
+"""tools/store_sb.py [--round3] <prop>... — store the confirmed second-round seeded changes of /tmp/sb/<prop>/_out as
+/verif/seeded/<prop>_c and <prop>_d (patch.diff, demo.rs, notes.md, meta.json); with --round3 those of
+/tmp/sc/<prop>/_out as <prop>_e and <prop>_f."""
 import json, os, shutil, sys
-for p in sys.argv[1:]:
-    for x, y in (("a", "c"), ("b", "d")):
-        src = "/tmp/sb/%s/_out" % p
+ARGS = sys.argv[1:]
+ROUND3 = ARGS[:1] == ["--round3"]
+if ROUND3:
+    ARGS = ARGS[1:]
+for p in ARGS:
+    for x, y in ((("e", "e"), ("f", "f")) if ROUND3 else (("a", "c"), ("b", "d"))):
+        src = ("/tmp/sc/%s/_out" if ROUND3 else "/tmp/sb/%s/_out") % p
         pf = "%s/mut_%s.patch.diff" % (src, x)
         cf = "%s/confirm_%s.json" % (src, x)
         if not (os.path.exists(pf) and os.path.exists(cf)):
@@ -22,8 +27,8 @@ for p in sys.argv[1:]:
         first = ""
         if os.path.exists(notes):
             first = " ".join(open(notes).read().split())[:400]
-        json.dump({"id": "%s_%s" % (p, y), "breaks_property": p, "round": 2,
-                   "origin": "independent sub-agent (second round) given only the property text, the list of situations the first-round changes need to manifest, and a scratch worktree",
+        json.dump({"id": "%s_%s" % (p, y), "breaks_property": p, "round": 3 if ROUND3 else 2,
+                   "origin": "independent sub-agent (%s round) given only the property text, the list of situations the earlier changes need to manifest, and a scratch worktree" % ("third" if ROUND3 else "second"),
                    "needs_to_manifest": first,
                    "confirmed_by_me": {"command": "tools/confirm_seed.py <scratch worktree> patch.diff demo.rs", "confirmed": True,
                                        "suite_with_change": c.get("suite_with_change"), "demo": {k: v for k, v in c.items() if k.startswith("demo")}},
